@@ -144,6 +144,9 @@ def entry_points(case):
     def gjk_epa(a, b):
         r = gjk.gjk(a, b)
         if r[0] == 0.0:
+            # the rows GJK did not write are uninitialised memory: keep the
+            # array that is handed over, a second call would see another one
+            LAST_SIMPLEX[0] = np.array(r[3], dtype=float)
             return epa(r[3], a, b)[0]
         return r[0]
     ep = {
@@ -218,19 +221,26 @@ def check_case(case, cell):
                    "maxima": {"max_support_evaluations": maxcount}}
 
 
+LAST_SIMPLEX = [None]
+
+
 def _simplex_class(case, name):
-    """class of the simplex gjk hands to epa (see c07.simplex_class)"""
-    if name != "gjk+epa":
+    """class of the simplex gjk handed to epa (see c07.simplex_class), incl.
+    the stale-row test: every row must be a point of A - B"""
+    if name != "gjk+epa" or LAST_SIMPLEX[0] is None:
         return None
-    from distance3d import gjk
     from .c07 import simplex_class
-    a = build(case["A"])
-    b = a if case.get("same_object") else build(case["B"])
-    r = call_lib(gjk.gjk, a, b)
-    if isinstance(r, LibError) or r[3] is None:
-        return None
+    from ..ref.refdist import refdist
+    from ..gen.colliders import translate
+    W = LAST_SIMPLEX[0]
     L = max(1.0, ref(case["A"]).feature_size(), ref(case["B"]).feature_size())
-    return simplex_class(np.array(r[3], dtype=float), L)[0]
+    cls = simplex_class(W, L)[0]
+    if cls.startswith("tetra"):
+        sb = case["A"] if case.get("same_object") else case["B"]
+        for w in W:
+            if refdist(ref(case["A"]), ref(translate(sb, w)), scale=L)["lower"] > 1e-6 * L:
+                return "stale-row"
+    return cls
 
 
 def match_known(f, case, known):
@@ -244,4 +254,10 @@ def match_known(f, case, known):
         return "C19-K1"
     if "C19-K2" in ids and clause == "nonfinite" and str(d.get("entry", "")).startswith("nesterov"):
         return "C19-K2"
+    if "C19-K3" in ids and d.get("entry") == "gjk+epa" and d.get("etype") == "AssertionError" and \
+            "epa.py" in str(d.get("frame")) and d.get("simplex") in ("tetra+", "tetra-") and \
+            not case.get("same_object"):
+        from .c07 import capacity_only
+        if capacity_only(case):
+            return "C19-K3"
     return None
